@@ -3,6 +3,9 @@ package main
 var realA = []string{"tq.TransferQueue", "tq.adapterBase + basic upload/download adapters", "tq.Batch / tqClient", "lfsapi.Client (auth loop, endpoints)", "lfshttp.Client (redirects, retries, error mapping)", "errors", "tools (copy, hashing, rename helpers)", "fs.Filesystem on a real per-run directory"}
 var stubA = []string{"net/http connection layer (TCP, TLS, HTTP framing) replaced by the virtual internet", "LFS batch/storage server (simulated)", "goroutine scheduler choice (gate scheduler)", "wall clock (synctest fake clock)"}
 
+var realB = []string{"git 2.39 (real)", "git-lfs binary built from /repo with -tags verif: every command, hook and filter involved", "net/http client stack of git-lfs over loopback", "real file systems of the clones and the bare remote"}
+var stubB = []string{"LFS server: the simulated server on a loopback listener (fault decisions keyed by request content)", "wall-clock dates of commits are generated relative to the run's start"}
+
 var plans = map[string]*plan{
 	"C06": {
 		ID: "C06", Engine: "A", Level: "exploration",
@@ -62,8 +65,11 @@ var plans = map[string]*plan{
 		Real:   append([]string{"commands.filterCommand body incl. infiniteTransferBuffer/readAvailable, delayedSmudge, smudge, clean", "git.FilterProcessScanner, pktline"}, realA...), Stub: append([]string{"Git itself: a passive peer object that produces the next request when the filter reads and parses each response strictly (strict alternation as in Git's client)"}, stubA...),
 		Assume: []string{"Git's client is strictly request/response, so a passive peer loses no interleavings", "the expected content is computed by the C01/C08 reference model (the one-shot bodies are checked against the same model by C01/C08)"},
 	},
-}
-
-func runEngineB(p *plan, tier string, base uint64, workers int, scale float64, replay string) int {
-	return 2
+	"C03": {
+		ID: "C03", Engine: "B", Level: "exploration",
+		Stages: []stage{{"C03.nofault", 120, 3000}, {"C03", 360, 12000}},
+		Rule:   "each scenario = one tape: a history in a clone (writes to LFS and non-LFS paths, duplicates, deletes, renames, branches, merges, tags, orphan branches, tracking changes, dated commits) interleaved with pushes (git push branch / --all / --tags / --force / --delete, second remote, git lfs push ref / --all), local objects lost before a push (with/without a copy on the server), allowincompletepush on/off, batch size 1/2/3/100, concurrency; server faults keyed by request (batch 5xx/429, PUT 4xx/5xx/422/stored-reply-lost, verify 4xx/5xx, per-object errors). After every push that exits 0 and moved a remote ref, git plumbing on the bare remote lists every reachable pointer blob and the server store must hold each with matching SHA-256. Every scenario is non-trivial; distinct = distinct choice trace + process outcomes.",
+		Real:   realB, Stub: stubB,
+		Assume: []string{"ground truth about referenced pointers comes from git rev-list/cat-file and the harness's own strict pointer reader, never from git-lfs", "file:// standalone remotes are not covered by this check"},
+	},
 }
